@@ -106,8 +106,16 @@ SendEvents(c, b) ==
 
 ApiOps == {"addPeer", "deletePeer", "getPeer", "listPeers", "serve", "close", "write"}
 
+(* the observation line that closes the current group of stimuli *)
+RECURSIVE ObsFrom(_)
+ObsFrom(i) == IF i > Len(Trace) \/ Trace[i].k = "obs" THEN i ELSE ObsFrom(i + 1)
+ObsLine == Trace[ObsFrom(l)]
+
+(* A stimulus is applied at quiescence, except one flagged `racy`: it was
+   issued right after the previous one without waiting.                    *)
 TraceStim ==
-  /\ AtLine /\ Line.k = "stim" /\ Settled /\ out = <<>>
+  /\ AtLine /\ Line.k = "stim"
+  /\ Line.racy \/ (Settled /\ out = <<>>)
   /\ l' = l + 1
   /\ LET s == Line IN
      CASE s.op \in ApiOps ->
@@ -126,9 +134,9 @@ TraceStim ==
 
 (* an unlogged step of corebgp; what it emits must agree with the log so far *)
 TraceInternal ==
-  /\ AtLine /\ Line.k = "obs"
+  /\ AtLine /\ (Line.k = "obs" \/ (Line.k = "stim" /\ Line.racy))
   /\ Internal
-  /\ PrefixMatches(out', Line.ev)
+  /\ PrefixMatches(out', ObsLine.ev)
   /\ UNCHANGED <<l, target>>
 
 TraceTime ==
